@@ -1042,16 +1042,30 @@ class Interp:
         if not (isinstance(g.target, ast.Name) and isinstance(e.elt, ast.Name) and e.elt.id == g.target.id and len(g.ifs) == 1):
             return NOTFOUND
         c = g.ifs[0]
-        if not (isinstance(c, ast.Compare) and len(c.ops) == 1 and isinstance(c.ops[0], ast.NotEq) and isinstance(c.left, ast.Name) and c.left.id == g.target.id):
-            return NOTFOUND
-        if any(isinstance(n, ast.Name) and n.id == g.target.id for n in ast.walk(c.comparators[0])):
+        is_neq = (isinstance(c, ast.Compare) and len(c.ops) == 1 and isinstance(c.ops[0], ast.NotEq) and isinstance(c.left, ast.Name) and c.left.id == g.target.id
+                  and not any(isinstance(n, ast.Name) and n.id == g.target.id for n in ast.walk(c.comparators[0])))
+        if not (is_neq or getattr(self, 'filter_views', False)):
             return NOTFOUND
         src = self.eval(g.iter, env, module)
+        if is_neq and hasattr(src, 'm_listcomp_filter_neq'):
+            return src.m_listcomp_filter_neq(self, self.eval(c.comparators[0], env, module))
+        if getattr(self, 'filter_views', False) and hasattr(src, 'm_filter_view') and src.concrete_len(self) is None:
+            # [x for x in L if P(x)] over a label list of symbolic length: P is evaluated once on a fresh label (it must not
+            # branch) and becomes the predicate of an order-preserving filter view
+            lam = self.ctx.fresh(LabelSort, 'lam')
+            env2 = {'__parent__': env, '__qualname__': env.get('__qualname__', '')}
+            env2[g.target.id] = Sym(lam)
+            before = self.ctx.decisions
+            p = self.truth(self.eval(c, env2, module))
+            if self.ctx.decisions != before:
+                raise Unsupported('filter predicate of a comprehension branches on the element')
+            pt = z3.BoolVal(p) if isinstance(p, bool) else p
+            return src.m_filter_view(self, lambda l, pt=pt, lam=lam: z3.substitute(pt, (lam, l)))
         if not hasattr(src, 'm_listcomp_filter_neq'):
             if isinstance(src, Model):
                 raise Unsupported('comprehension over ' + type(src).__name__)
             return NOTFOUND
-        return src.m_listcomp_filter_neq(self, self.eval(c.comparators[0], env, module))
+        return NOTFOUND
 
     def comprehension(self, gens, i, env, module, emit):
         if i == len(gens):
